@@ -21,17 +21,17 @@ CLAUSES = {
 
 
 def model_check(ctx, shape, max_env, flagsets="CoreFlagSets", env="AllEnv", faults="AllFault",
-                invariants=None, properties=None, workers=NCPU, timeout=3600, contents="{0, 1}"):
+                invariants=None, properties=None, workers=NCPU, timeout=3600, contents="{0, 1}", profile="LeafProfile"):
     """Exhaustive TLC run of Repo.tla for one forest shape; raises CheckError if TLC finds a counterexample
     (a counterexample in the design is a defect of the specification or of the design, not yet a verdict
     about the code - see DESIGN.md section 5)."""
     d = ctx.spec_dir()
     inv = invariants or ["TypeInv", "KeyImpliesCert", "ConvergedAfterDefault", "Idempotent", "DefaultRunCompletes", "NoRefreshWithoutHash"]
     props = properties if properties is not None else ["KeysKept", "WriteErrIsFailure", "ChainOnRun"]
-    name = "MCRepo_%s_%d_%s.cfg" % (shape, max_env, flagsets)
+    name = "MCRepo_%s_%d_%s_%s.cfg" % (shape, max_env, flagsets, env)
     with open(os.path.join(d, name), "w") as f:
         f.write('CONSTANTS\n  Ents = {"r", "s", "l"}\n  Parent <- %sParent\n  Contents = %s\n  FlagSets <- %s\n'
-                '  EnvActs <- %s\n  FaultActs <- %s\n  MaxEnv = %d\nINIT Init\nNEXT Next\n' % (SHAPES[shape], contents, flagsets, env, faults, max_env))
+                '  EnvActs <- %s\n  FaultActs <- %s\n  UsesProfile <- %s\n  MaxEnv = %d\nINIT Init\nNEXT Next\n' % (SHAPES[shape], contents, flagsets, env, faults, profile, max_env))
         f.write("INVARIANTS %s\n" % " ".join(inv))
         if props:
             f.write("PROPERTIES %s\n" % " ".join(props))
